@@ -155,7 +155,11 @@ class BaseOracle:
 
     def hooks(self):
         return {"in_callback": self.in_callback, "after_update": self.after_update, "on_action": self.on_action,
-                "before_action": self.before_action, "on_start": self.on_start, "on_end": self.on_end}
+                "before_action": self.before_action, "on_start": self.on_start, "on_end": self.on_end, "in_closed": self.in_closed}
+
+    def in_closed(self, run, strategy, market, market_book):
+        """inside a strategy's process_closed_market callback"""
+        pass
 
     def before_action(self, run, sidx, market, action, order, state):
         pass
